@@ -278,7 +278,7 @@ Ltac eqb_cases :=
          | H : context [Nat.eqb ?a ?b] |- _ => destruct (Nat.eqb_spec a b); subst
          end.
 
-Lemma alloc_ok X st c : invx X st -> invx (st_next st :: X) (snd (alloc c st)).
+Lemma alloc_ok X st mv c : invx X st -> invx (st_next st :: X) (snd (alloc mv c st)).
 Proof.
   intros I. pose proof (ix_fresh _ _ I) as Hf.
   constructor; simpl; try intro x.
@@ -292,7 +292,7 @@ Qed.
 
 Lemma delete_eq X st l : invx (l :: X) st ->
   delete_content (Some l) st =
-  mkSt (hrem l (st_heap st)) (st_next st) (st_alog st) (l :: st_dlog st) (st_pool st) (st_faults st).
+  mkSt (hrem l (st_heap st)) (st_next st) (st_alog st) (l :: st_dlog st) (st_pool st) (st_faults st) (st_ctors st).
 Proof.
   intro I. unfold delete_content.
   destruct (hget l (st_heap st)) eqn:E; auto.
@@ -360,7 +360,7 @@ Proof.
   destruct (Nat.eqb d e && Nat.ltb d (length (st_pool st))); auto.
 Qed.
 
-Lemma view_alloc X e c st : invx X st -> view_of e (snd (alloc c st)) = view_of e st.
+Lemma view_alloc X e mv c st : invx X st -> view_of e (snd (alloc mv c st)) = view_of e st.
 Proof.
   intro I. unfold view_of, pget; simpl. apply vslot_frame. intros l H.
   pose proof (inv_owned_lt _ _ _ _ I H). simpl.
@@ -379,7 +379,7 @@ Proof. destruct p; simpl; auto. apply view_delete. Qed.
 Lemma pool_delete p st : st_pool (delete_content p st) = st_pool st.
 Proof. destruct p; simpl; auto. destruct (hget l (st_heap st)); auto. Qed.
 
-Lemma clone_some l c st : hget l (st_heap st) = Some c -> clone (Some l) st = (Some (st_next st), snd (alloc c st)).
+Lemma clone_some l c st : hget l (st_heap st) = Some c -> clone (Some l) st = (Some (st_next st), snd (alloc false c st)).
 Proof. intro H. unfold clone. rewrite H. reflexivity. Qed.
 
 Lemma view_holds d l t v st : pget d st = Live (Some l) -> hget l (st_heap st) = Some (t, v) -> view_of d st = VHolds t v.
@@ -409,15 +409,15 @@ Proof.
   - views_goal. rewrite view_pset, nth_upd, nth_views, length_views. auto.
 Qed.
 
-Lemma value_ctor_ok st d t v : inv st -> is_free d st = true ->
-  inv (m_value_ctor d t v st) /\ views (m_value_ctor d t v st) = upd d (VHolds t v) (views st).
+Lemma value_ctor_ok st mv d t v : inv st -> is_free d st = true ->
+  inv (m_value_ctor mv d t v st) /\ views (m_value_ctor mv d t v st) = upd d (VHolds t (Some v)) (views st).
 Proof.
   intros I F. destruct (is_free_lt _ _ F) as [Hlt Hd]. unfold m_value_ctor.
-  change (alloc (t, v) st) with (st_next st, snd (alloc (t, v) st)). cbv iota beta.
-  pose proof (alloc_ok [] st (t, v) I) as I1. split.
-  - pose proof (pset_ok [] (snd (alloc (t, v) st)) d (Live (Some (st_next st))) Hlt I1) as H.
+  change (alloc mv (t, Some v) st) with (st_next st, snd (alloc mv (t, Some v) st)). cbv iota beta.
+  pose proof (alloc_ok [] st mv (t, Some v) I) as I1. split.
+  - pose proof (pset_ok [] (snd (alloc mv (t, Some v) st)) d (Live (Some (st_next st))) Hlt I1) as H.
     unfold pget in H; simpl in H. unfold pget in Hd. rewrite Hd in H. exact H.
-  - views_goal. rewrite view_pset, (view_alloc _ _ _ _ I), nth_upd, nth_views, length_views. simpl.
+  - views_goal. rewrite view_pset, (view_alloc _ _ _ _ _ I), nth_upd, nth_views, length_views. simpl.
     rewrite Nat.eqb_refl. auto.
 Qed.
 
@@ -427,10 +427,10 @@ Proof.
   intros I F L. destruct (is_free_lt _ _ F) as [Hlt Hd]. pose proof (is_live_content _ _ L) as Hs.
   unfold m_copy_ctor. destruct (content s st) as [ls|] eqn:Cs.
   - destruct (inv_owned _ _ _ _ I Hs) as [[t v] Hc]. rewrite (clone_some _ _ _ Hc).
-    pose proof (alloc_ok [] st (t, v) I) as I1. split.
-    + pose proof (pset_ok [] (snd (alloc (t, v) st)) d (Live (Some (st_next st))) Hlt I1) as H.
+    pose proof (alloc_ok [] st false (t, v) I) as I1. split.
+    + pose proof (pset_ok [] (snd (alloc false (t, v) st)) d (Live (Some (st_next st))) Hlt I1) as H.
       unfold pget in H; simpl in H. unfold pget in Hd. rewrite Hd in H. exact H.
-    + views_goal. rewrite view_pset, (view_alloc _ _ _ _ I), nth_upd, nth_views, length_views. simpl.
+    + views_goal. rewrite view_pset, (view_alloc _ _ _ _ _ I), nth_upd, nth_views, length_views. simpl.
       rewrite Nat.eqb_refl. rewrite (view_holds _ _ _ _ _ Hs Hc). auto.
   - simpl. split.
     + pose proof (pset_ok [] st d (Live None) Hlt I) as H. rewrite Hd in H. exact H.
@@ -490,14 +490,14 @@ Proof.
   pose proof (is_live_content _ _ Ld) as Cd. pose proof (is_live_content _ _ Ls) as Cs.
   unfold m_copy_assign, set_content. destruct (content s st) as [ls|] eqn:Es.
   - destruct (inv_owned _ _ _ _ I Cs) as [[t v] Hc]. rewrite (clone_some _ _ _ Hc).
-    pose proof (alloc_ok [] st (t, v) I) as I1.
-    set (st1 := snd (alloc (t, v) st)) in *.
+    pose proof (alloc_ok [] st false (t, v) I) as I1.
+    set (st1 := snd (alloc false (t, v) st)) in *.
     assert (Cd1 : pget d st1 = Live (content d st1)) by exact Cd.
     pose proof (pset_ok [] st1 d (Live (Some (st_next st))) Hlt I1) as I2.
     rewrite Cd1, srefs_live in I2. split.
     + apply (delete_opt_ok [] _ _ I2).
     + views_goal. rewrite (view_delete_opt [] _ _ _ I2), view_pset. unfold st1 at 3.
-      rewrite (view_alloc _ _ _ _ I), nth_upd, nth_views, length_views. simpl. rewrite Nat.eqb_refl.
+      rewrite (view_alloc _ _ _ _ _ I), nth_upd, nth_views, length_views. simpl. rewrite Nat.eqb_refl.
       rewrite (view_holds _ _ _ _ _ Cs Hc). auto.
   - simpl.
     pose proof (pset_ok [] st d (Live None) Hlt I) as I2. rewrite Cd, srefs_live in I2. split.
@@ -537,20 +537,20 @@ Proof.
     destruct (Nat.eqb_spec s e); simpl; auto.
 Qed.
 
-Lemma value_assign_ok st d t v : inv st -> is_live d st = true ->
-  inv (m_value_assign d t v st) /\ views (m_value_assign d t v st) = upd d (VHolds t v) (views st).
+Lemma value_assign_ok st mv d t v : inv st -> is_live d st = true ->
+  inv (m_value_assign mv d t v st) /\ views (m_value_assign mv d t v st) = upd d (VHolds t (Some v)) (views st).
 Proof.
   intros I Ld. pose proof (is_live_lt _ _ Ld) as Hlt. pose proof (is_live_content _ _ Ld) as Cd.
   unfold m_value_assign, set_content.
-  change (alloc (t, v) st) with (st_next st, snd (alloc (t, v) st)). cbv iota beta.
-  pose proof (alloc_ok [] st (t, v) I) as I1.
-  set (st1 := snd (alloc (t, v) st)) in *.
+  change (alloc mv (t, Some v) st) with (st_next st, snd (alloc mv (t, Some v) st)). cbv iota beta.
+  pose proof (alloc_ok [] st mv (t, Some v) I) as I1.
+  set (st1 := snd (alloc mv (t, Some v) st)) in *.
   assert (Cd1 : pget d st1 = Live (content d st1)) by exact Cd.
   pose proof (pset_ok [] st1 d (Live (Some (st_next st))) Hlt I1) as I2.
   rewrite Cd1, srefs_live in I2. split.
   - apply (delete_opt_ok [] _ _ I2).
   - views_goal. rewrite (view_delete_opt [] _ _ _ I2), view_pset. unfold st1 at 3.
-    rewrite (view_alloc _ _ _ _ I), nth_upd, nth_views, length_views. simpl. rewrite Nat.eqb_refl. auto.
+    rewrite (view_alloc _ _ _ _ _ I), nth_upd, nth_views, length_views. simpl. rewrite Nat.eqb_refl. auto.
 Qed.
 
 Lemma reset_ok st d : inv st -> is_live d st = true ->
@@ -579,7 +579,7 @@ Proof.
 Qed.
 
 (* assignment to the held object through a pointer / reference obtained from any_cast *)
-Lemma write_ok st d l t v0 v : inv st -> pget d st = Live (Some l) -> hget l (st_heap st) = Some (t, v0) ->
+Lemma write_ok st d l t (v0 v : hval) : inv st -> pget d st = Live (Some l) -> hget l (st_heap st) = Some (t, v0) ->
   inv (write_at l t v st) /\ views (write_at l t v st) = upd d (VHolds t v) (views st).
 Proof.
   intros I Hd Hl. split.
@@ -654,6 +654,30 @@ Proof. rewrite <- nth_views. apply upd_same. Qed.
 
 (* ------------------------------------------------------------------ the step function refines the value-level specification *)
 
+Lemma inv_note X e st : invx X st -> invx X (note_ctor e st).
+Proof. intros [A B C D E]. constructor; simpl; auto. Qed.
+
+Lemma views_note e st : views (note_ctor e st) = views st.
+Proof. reflexivity. Qed.
+
+Lemma read_val_copy_spec d t st : inv st -> is_live d st = true ->
+  inv (fst (read_val_copy t (any_cast_ref d t st) st)) /\
+  views (fst (read_val_copy t (any_cast_ref d t st) st)) = views st /\
+  snd (read_val_copy t (any_cast_ref d t st) st) = spec_cast_val (view_of d st) t.
+Proof.
+  intros I L. unfold read_val_copy. rewrite (cast_val_spec d t st L).
+  destruct (spec_cast_val (view_of d st) t); simpl; auto.
+  split; [apply inv_note; auto | auto].
+Qed.
+
+Lemma holds_type_spec s tx st : is_live s st = true -> holds_type s tx st = spec_holds (view_of s st) tx.
+Proof.
+  intro L. unfold holds_type, m_type. rewrite (view_live _ _ L).
+  destruct (content s st) as [l|]; simpl; auto.
+  destruct (hget l (st_heap st)) as [[t v]|]; auto.
+Qed.
+
+(* writing any cell value (also the moved-from mark) to the holder owned by d *)
 Theorem step_refines_spec st o : inv st ->
   inv (fst (step o st)) /\
   views (fst (step o st)) = fst (spec_step o (views st)) /\
@@ -662,7 +686,7 @@ Proof.
   intro I.
   destruct o; simpl; unfold vget; rewrite ?vfree_views, ?nth_views, ?vlive_view.
   - (* ODefault *) destruct (is_free d st) eqn:F; simpl; auto. destruct (default_ok _ _ I F); auto.
-  - (* OValue *) destruct (is_free d st) eqn:F; simpl; auto. destruct (value_ctor_ok _ _ t v I F); auto.
+  - (* OValue *) destruct (is_free d st) eqn:F; simpl; auto. destruct (value_ctor_ok _ mv _ t v I F); auto.
   - (* OCopyCtor *) destruct (is_free d st) eqn:F; simpl; auto. destruct (is_live s st) eqn:L; simpl; auto.
     destruct (copy_ctor_ok _ _ _ I F L); auto.
   - (* OMoveCtor *) destruct (is_free d st) eqn:F; simpl; auto. destruct (is_live s st) eqn:L; simpl; auto.
@@ -673,7 +697,7 @@ Proof.
     destruct (Nat.eqb_spec d s) as [E|E].
     + subst. rewrite move_assign_self. auto.
     + destruct (move_assign_ok _ _ _ I Ld L E); auto.
-  - (* OValueAssign *) destruct (is_live d st) eqn:Ld; simpl; auto. destruct (value_assign_ok _ _ t v I Ld); auto.
+  - (* OValueAssign *) destruct (is_live d st) eqn:Ld; simpl; auto. destruct (value_assign_ok _ mv _ t v I Ld); auto.
   - (* OReset *) destruct (is_live d st) eqn:Ld; simpl; auto. destruct (reset_ok _ _ I Ld); auto.
   - (* OSwap *) destruct (is_live d st) eqn:Ld; simpl; auto. destruct (is_live s st) eqn:L; simpl; auto.
     destruct (swap_ok _ _ _ I Ld L); auto.
@@ -682,19 +706,37 @@ Proof.
   - (* OType *) destruct (is_live d st) eqn:Ld; simpl; auto. rewrite type_spec by auto. auto.
   - (* OCastPtr *) rewrite cast_ptr_spec. auto.
   - (* OCastCPtr *) unfold any_cast_cptr. rewrite cast_ptr_spec. auto.
-  - (* OCastVal *) destruct (is_live d st) eqn:Ld; simpl; auto. rewrite cast_val_spec by auto. auto.
+  - (* OCastVal *) destruct (is_live d st) eqn:Ld; simpl; auto. apply read_val_copy_spec; auto.
   - (* OCastRef *) destruct (is_live d st) eqn:Ld; simpl; auto. rewrite cast_val_spec by auto. auto.
-  - (* OCastCVal *) destruct (is_live d st) eqn:Ld; simpl; auto. unfold any_cast_cref. rewrite cast_val_spec by auto. auto.
-  - (* OCastRVal *) destruct (is_live d st) eqn:Ld; simpl; auto. unfold any_cast_rval. rewrite cast_val_spec by auto. auto.
+  - (* OCastCVal *) destruct (is_live d st) eqn:Ld; simpl; auto. unfold any_cast_cref. apply read_val_copy_spec; auto.
+  - (* OCastRVal *) destruct (is_live d st) eqn:Ld; simpl; auto. unfold any_cast_rval. apply read_val_copy_spec; auto.
   - (* OSetPtr *) destruct (cast_cases st d t I) as [P H N|l v0 P Hp Hl Hv]; rewrite P; simpl.
     + destruct (view_of d st) eqn:V; simpl in H; try rewrite H; simpl;
         try (exfalso; eapply N; eauto; fail); rewrite <- V, upd_views_same; auto.
-    + rewrite Hv. simpl. rewrite Nat.eqb_refl. destruct (write_ok _ _ _ _ _ v I Hp Hl); auto.
+    + rewrite Hv. simpl. rewrite Nat.eqb_refl. destruct (write_ok _ _ _ _ _ (Some v) I Hp Hl); auto.
   - (* OSetRef *) destruct (is_live d st) eqn:Ld; simpl; auto. unfold any_cast_ref.
     destruct (cast_cases st d t I) as [P H N|l v0 P Hp Hl Hv]; rewrite P; simpl.
     + destruct (view_of d st) eqn:V; simpl in H; try rewrite H; simpl;
         try (exfalso; eapply N; eauto; fail); rewrite <- V, upd_views_same; auto.
-    + rewrite Hv. simpl. rewrite Nat.eqb_refl. destruct (write_ok _ _ _ _ _ v I Hp Hl); auto.
+    + rewrite Hv. simpl. rewrite Nat.eqb_refl. destruct (write_ok _ _ _ _ _ (Some v) I Hp Hl); auto.
+  - (* OCastPtrCq *) unfold any_cast_ptr_cq. rewrite cast_ptr_spec. auto.
+  - (* OCastRefCq *) destruct (is_live d st) eqn:Ld; simpl; auto.
+    change (any_cast_ref_cq d t st) with (any_cast_ref d t st). rewrite cast_val_spec by auto. auto.
+  - (* OCastXVal *) destruct (is_live d st) eqn:Ld; simpl; auto. unfold any_cast_rval, any_cast_ref.
+    destruct (cast_cases st d t I) as [P H N|l x0 P Hp Hl Hv]; rewrite P; simpl.
+    + destruct (view_of d st) eqn:V; simpl in H; try rewrite H; simpl; auto.
+      exfalso; eapply N; eauto.
+    + rewrite Hl, Hv. simpl. rewrite Nat.eqb_refl.
+      destruct (write_ok _ _ _ _ _ (if mvt then None else x0) I Hp Hl) as [I1 V1].
+      destruct asg; simpl; auto. split; [apply inv_note; auto | auto].
+  - (* OValueThrow *) destruct (is_free d st); auto.
+  - (* OValueAssignThrow *) destruct (is_live d st); auto.
+  - (* OCopyCtorArmed *) destruct (is_free d st) eqn:F; simpl; auto. destruct (is_live s st) eqn:L; simpl; auto.
+    rewrite holds_type_spec by auto. destruct (spec_holds (view_of s st) tx); simpl; auto.
+    destruct (copy_ctor_ok _ _ _ I F L); auto.
+  - (* OCopyAssignArmed *) destruct (is_live d st) eqn:Ld; simpl; auto. destruct (is_live s st) eqn:L; simpl; auto.
+    rewrite holds_type_spec by auto. destruct (spec_holds (view_of s st) tx); simpl; auto.
+    destruct (copy_assign_ok _ _ _ I Ld L); auto.
 Qed.
 
 (* ------------------------------------------------------------------ all operation words *)
@@ -830,7 +872,11 @@ Proof.
   - apply cnt_nodup. intro x. apply inv_dlog_once; auto.
 Qed.
 
-(* ------------------------------------------------------------------ what the self test of move assignment is for *)
+(* ------------------------------------------------------------------ REGRESSION-SPEC REMARK (not a property theorem)
+   m_move_assign_nocheck is the body operator=(any&&) would have without its
+   `this == &rhs` test.  It is NOT extracted, NOT run and NOT part of Properties_C20.v;
+   the lemma only records what the test is there for (the library with the test removed is
+   mutation M5 of the check: it is caught by C20:self-assign-not-harmless:mas). *)
 
 Lemma move_assign_nocheck_self_releases st d : is_live d st = true ->
   view_of d (m_move_assign_nocheck d d st) = VEmpty.
@@ -860,7 +906,7 @@ Proof.
   unfold tagtest. simpl. destruct (Nat.eqb_spec k l); auto. subst. contradiction.
 Qed.
 
-Lemma tc_keys t h : NoDup (keys h) -> tc t h (keys h) = live_count t (mkSt h 0 [] [] [] []).
+Lemma tc_keys t h : NoDup (keys h) -> tc t h (keys h) = live_count t (mkSt h 0 [] [] [] [] []).
 Proof.
   unfold live_count; simpl. induction h as [|[k [t' v]] r IH]; intro N; simpl; auto.
   inversion N; subst.
@@ -966,20 +1012,27 @@ Qed.
 Lemma view_live_true d st : vlive (view_of d st) = true -> is_live d st = true.
 Proof. rewrite vlive_view. auto. Qed.
 
-Lemma c20_cast_ok st d t v : view_of d st = VHolds t v ->
-  step (OCastPtr d t) st = (st, RPtr (Some v)) /\ step (OCastCPtr d t) st = (st, RPtr (Some v)) /\
-  step (OCastVal d t) st = (st, RVal v) /\ step (OCastRef d t) st = (st, RVal v) /\
-  step (OCastCVal d t) st = (st, RVal v) /\ step (OCastRVal d t) st = (st, RVal v).
+Lemma c20_cast_ok st d t x : view_of d st = VHolds t x ->
+  step (OCastPtr d t) st = (st, RPtr (Some x)) /\ step (OCastCPtr d t) st = (st, RPtr (Some x)) /\
+  step (OCastPtrCq d t) st = (st, RPtr (Some x)) /\
+  step (OCastRef d t) st = (st, RVal x) /\ step (OCastRefCq d t) st = (st, RVal x) /\
+  step (OCastVal d t) st = (note_ctor (t, false) st, RVal x) /\
+  step (OCastCVal d t) st = (note_ctor (t, false) st, RVal x) /\
+  step (OCastRVal d t) st = (note_ctor (t, false) st, RVal x).
 Proof.
   intro V. assert (L : is_live d st = true) by (apply view_live_true; rewrite V; auto).
-  simpl. unfold any_cast_cptr, any_cast_cref, any_cast_rval.
+  simpl. unfold any_cast_cptr, any_cast_cref, any_cast_rval, any_cast_ptr_cq, read_val_copy.
+  change (any_cast_ref_cq d t st) with (any_cast_ref d t st).
   rewrite L, cast_ptr_spec, cast_val_spec, V by auto. simpl. rewrite Nat.eqb_refl. repeat split; auto.
 Qed.
 
-Lemma c20_cast_wrong_type st d t v t' v' : view_of d st = VHolds t v -> t' <> t ->
+Lemma c20_cast_wrong_type st d t x t' v' : view_of d st = VHolds t x -> t' <> t ->
   step (OCastPtr d t') st = (st, RPtr None) /\ step (OCastCPtr d t') st = (st, RPtr None) /\
+  step (OCastPtrCq d t') st = (st, RPtr None) /\
   step (OCastVal d t') st = (st, RThrow) /\ step (OCastRef d t') st = (st, RThrow) /\
   step (OCastCVal d t') st = (st, RThrow) /\ step (OCastRVal d t') st = (st, RThrow) /\
+  step (OCastRefCq d t') st = (st, RThrow) /\
+  (forall asg mvt, step (OCastXVal asg d t' mvt) st = (st, RThrow)) /\
   step (OSetPtr d t' v') st = (st, RBool false) /\ step (OSetRef d t' v') st = (st, RThrow).
 Proof.
   intros V ne. assert (L : is_live d st = true) by (apply view_live_true; rewrite V; auto).
@@ -987,26 +1040,34 @@ Proof.
   destruct (view_holds_inv _ _ _ _ V) as [l [P H]].
   assert (C : any_cast_ptr d t' st = PNull).
   { unfold any_cast_ptr, m_type, content. rewrite P, H, E. auto. }
-  simpl. unfold any_cast_cptr, any_cast_cref, any_cast_rval, any_cast_ref.
+  simpl. unfold any_cast_cptr, any_cast_cref, any_cast_rval, any_cast_ref_cq, any_cast_ptr_cq, any_cast_ref, read_val_copy.
   rewrite L, C. simpl. repeat split; auto.
 Qed.
 
 Lemma c20_empty_type_void st d t : view_of d st = VEmpty ->
   step (OType d) st = (st, RType None) /\ step (OHasValue d) st = (st, RBool false) /\
   step (OCastPtr d t) st = (st, RPtr None) /\ step (OCastCPtr d t) st = (st, RPtr None) /\
+  step (OCastPtrCq d t) st = (st, RPtr None) /\
   step (OCastVal d t) st = (st, RThrow) /\ step (OCastRef d t) st = (st, RThrow) /\
-  step (OCastCVal d t) st = (st, RThrow) /\ step (OCastRVal d t) st = (st, RThrow).
+  step (OCastCVal d t) st = (st, RThrow) /\ step (OCastRVal d t) st = (st, RThrow) /\
+  step (OCastRefCq d t) st = (st, RThrow) /\
+  (forall asg mvt, step (OCastXVal asg d t mvt) st = (st, RThrow)).
 Proof.
   intro V. assert (L : is_live d st = true) by (apply view_live_true; rewrite V; auto).
-  simpl. unfold any_cast_cptr, any_cast_cref, any_cast_rval.
-  rewrite L, cast_ptr_spec, cast_val_spec, has_value_spec, type_spec, V by auto. simpl. repeat split; auto.
+  assert (C : any_cast_ptr d t st = PNull).
+  { unfold view_of in V. unfold any_cast_ptr, m_type, content.
+    destruct (pget d st) as [|[l|]]; simpl in V; try discriminate; auto.
+    destruct (hget l (st_heap st)) as [[t' x]|]; discriminate. }
+  simpl. unfold any_cast_cptr, any_cast_cref, any_cast_rval, any_cast_ref_cq, any_cast_ptr_cq, any_cast_ref, read_val_copy.
+  rewrite L, C, has_value_spec, type_spec, V by auto. simpl. repeat split; auto.
 Qed.
 
 (* a null operand (no container at the index) for the pointer forms *)
 Lemma c20_cast_null_operand st d t : view_of d st = VDead ->
-  step (OCastPtr d t) st = (st, RPtr None) /\ step (OCastCPtr d t) st = (st, RPtr None).
+  step (OCastPtr d t) st = (st, RPtr None) /\ step (OCastCPtr d t) st = (st, RPtr None) /\
+  step (OCastPtrCq d t) st = (st, RPtr None).
 Proof.
-  intro V. simpl. unfold any_cast_cptr. rewrite cast_ptr_spec, V. auto.
+  intro V. simpl. unfold any_cast_cptr, any_cast_ptr_cq. rewrite cast_ptr_spec, V. auto.
 Qed.
 
 Lemma view_step e o st : inv st -> view_of e (fst (step o st)) = nth e (fst (spec_step o (views st))) VDead.
@@ -1155,4 +1216,116 @@ Proof.
   - intro b. destruct (step_refines_spec st (OSwap b d d) I) as [_ [V _]]. rewrite V. simpl. unfold vget.
     rewrite nth_views, vlive_view, L. simpl.
     rewrite upd_views_same. apply upd_views_same.
+Qed.
+
+(* ------------------------------------------------------------------ the rvalue-reference cast the library uses *)
+
+Lemma ctors_delete p st : st_ctors (delete_content p st) = st_ctors st.
+Proof. destruct p; simpl; auto. destruct (hget l (st_heap st)); auto. Qed.
+
+(* T x = any_cast<T&&>(std::move(a)) on a container holding a T: the caller receives the
+   value; the container still has a value of the same type (has_value, type unchanged), now
+   moved-from when T's move takes the value away; no other container changes; nothing is
+   allocated or destroyed; asking again yields a moved-from object, not the value. *)
+Lemma c20_xval st asg d t x mvt : inv st -> view_of d st = VHolds t x ->
+  let st1 := fst (step (OCastXVal asg d t mvt) st) in
+  snd (step (OCastXVal asg d t mvt) st) = RVal x /\
+  inv st1 /\
+  view_of d st1 = VHolds t (if mvt then None else x) /\
+  (forall e, e <> d -> view_of e st1 = view_of e st) /\
+  step (OHasValue d) st1 = (st1, RBool true) /\ step (OType d) st1 = (st1, RType (Some t)) /\
+  (mvt = true -> forall asg' mvt', snd (step (OCastXVal asg' d t mvt') st1) = RVal None) /\
+  st_alog st1 = st_alog st /\ st_dlog st1 = st_dlog st /\
+  st_ctors st1 = (if asg then st_ctors st else (t, true) :: st_ctors st).
+Proof.
+  intros I V st1.
+  assert (L : is_live d st = true) by (apply view_live_true; rewrite V; auto).
+  assert (Hlt : d < length (views st)) by (rewrite length_views; apply is_live_lt; auto).
+  destruct (step_refines_spec st (OCastXVal asg d t mvt) I) as [I1 [V1 R1]]. fold st1 in I1, V1.
+  assert (S1 : spec_step (OCastXVal asg d t mvt) (views st) =
+               (upd d (VHolds t (if mvt then None else x)) (views st), RVal x)).
+  { simpl. unfold vget. rewrite nth_views, V. simpl. rewrite Nat.eqb_refl. auto. }
+  rewrite S1 in V1, R1. simpl in V1, R1.
+  assert (Vd : view_of d st1 = VHolds t (if mvt then None else x)).
+  { rewrite <- nth_views, V1. apply nth_upd_same; auto. }
+  assert (L1 : is_live d st1 = true) by (apply view_live_true; rewrite Vd; auto).
+  split; [exact R1 | split; [exact I1 | split; [exact Vd | split; [| split; [| split; [| split]]]]]].
+  - intros e ne. rewrite <- nth_views, V1, nth_upd_other, nth_views; auto.
+  - simpl. rewrite L1, has_value_spec, Vd; auto.
+  - simpl. rewrite L1, type_spec, Vd; auto.
+  - intros M asg' mvt'. subst mvt.
+    destruct (step_refines_spec st1 (OCastXVal asg' d t mvt') I1) as [_ [_ R2]]. rewrite R2.
+    simpl. unfold vget. rewrite nth_views, Vd. simpl. rewrite Nat.eqb_refl. auto.
+  - destruct (view_holds_inv _ _ _ _ V) as [l [P H]].
+    assert (C : any_cast_ptr d t st = PTo l).
+    { unfold any_cast_ptr, m_type, content. rewrite P, H, Nat.eqb_refl. auto. }
+    unfold st1. simpl. unfold any_cast_rval, any_cast_ref. rewrite L, C, H. destruct asg; simpl; auto.
+Qed.
+
+(* ------------------------------------------------------------------ constructions of held-type objects *)
+
+(* value construction / assignment performs exactly one construction of the held type: a move
+   for the rvalue form, a copy otherwise; copy construction / assignment from a non-empty
+   container performs one copy; moves, swap, reset and the destructor perform none *)
+Lemma c20_constructions st :
+  (forall mv d t v, is_free d st = true ->
+     st_ctors (fst (step (OValue mv d t v) st)) = (t, mv) :: st_ctors st) /\
+  (forall mv d t v, is_live d st = true ->
+     st_ctors (fst (step (OValueAssign mv d t v) st)) = (t, mv) :: st_ctors st) /\
+  (forall d s, st_ctors (fst (step (OMoveCtor d s) st)) = st_ctors st) /\
+  (forall d s, st_ctors (fst (step (OMoveAssign d s) st)) = st_ctors st) /\
+  (forall b d s, st_ctors (fst (step (OSwap b d s) st)) = st_ctors st) /\
+  (forall d, st_ctors (fst (step (OReset d) st)) = st_ctors st) /\
+  (forall d, st_ctors (fst (step (ODestroy d) st)) = st_ctors st) /\
+  (forall d s t x, is_free d st = true -> view_of s st = VHolds t x ->
+     st_ctors (fst (step (OCopyCtor d s) st)) = (t, false) :: st_ctors st) /\
+  (forall d s t x, is_live d st = true -> view_of s st = VHolds t x ->
+     st_ctors (fst (step (OCopyAssign d s) st)) = (t, false) :: st_ctors st) /\
+  (forall d s, view_of s st = VEmpty ->
+     st_ctors (fst (step (OCopyCtor d s) st)) = st_ctors st /\
+     st_ctors (fst (step (OCopyAssign d s) st)) = st_ctors st).
+Proof.
+  repeat split.
+  - intros mv d t v F. simpl. rewrite F. reflexivity.
+  - intros mv d t v L. simpl. rewrite L. simpl. unfold m_value_assign. simpl. rewrite ctors_delete. reflexivity.
+  - intros d s. simpl. destruct (is_free d st && is_live s st); reflexivity.
+  - intros d s. simpl. destruct (is_live d st && is_live s st); simpl; auto.
+    unfold m_move_assign. destruct (Nat.eqb d s); auto. rewrite ctors_delete. reflexivity.
+  - intros b d s. simpl. destruct (is_live d st && is_live s st); reflexivity.
+  - intros d. simpl. destruct (is_live d st); simpl; auto. unfold m_reset. rewrite ctors_delete. reflexivity.
+  - intros d. simpl. destruct (is_live d st); simpl; auto. unfold m_destroy. simpl. rewrite ctors_delete. reflexivity.
+  - intros d s t x F V. assert (L : is_live s st = true) by (apply view_live_true; rewrite V; auto).
+    destruct (view_holds_inv _ _ _ _ V) as [l [P H]].
+    simpl. rewrite F, L. simpl. unfold m_copy_ctor, content. rewrite P. rewrite (clone_some _ _ _ H). reflexivity.
+  - intros d s t x Ld V. assert (L : is_live s st = true) by (apply view_live_true; rewrite V; auto).
+    destruct (view_holds_inv _ _ _ _ V) as [l [P H]].
+    simpl. rewrite Ld, L. simpl. unfold m_copy_assign. unfold content at 1. rewrite P. rewrite (clone_some _ _ _ H).
+    rewrite ctors_delete. reflexivity.
+  - unfold view_of in H. simpl. destruct (is_free d st && is_live s st); simpl; auto.
+    unfold m_copy_ctor, content. destruct (pget s st) as [|[l|]]; simpl in *; try discriminate; auto.
+    destruct (hget l (st_heap st)) as [[t' x]|]; discriminate.
+  - unfold view_of in H. simpl. destruct (is_live d st && is_live s st); simpl; auto.
+    unfold m_copy_assign. unfold content at 1. destruct (pget s st) as [|[l|]]; simpl in *; try discriminate.
+    + destruct (hget l (st_heap st)) as [[t' x]|]; discriminate.
+    + rewrite ctors_delete. reflexivity.
+Qed.
+
+(* ------------------------------------------------------------------ a throwing copy constructor *)
+
+(* strong guarantee: the state (values, heap, logs) is exactly what it was *)
+Lemma c20_strong_guarantee st :
+  (forall d t v, is_free d st = true -> step (OValueThrow d t v) st = (st, RExn)) /\
+  (forall d t v, is_live d st = true -> step (OValueAssignThrow d t v) st = (st, RExn)) /\
+  (forall d s tx x, is_free d st = true -> view_of s st = VHolds tx x ->
+     step (OCopyCtorArmed d s tx) st = (st, RExn)) /\
+  (forall d s tx x, is_live d st = true -> view_of s st = VHolds tx x ->
+     step (OCopyAssignArmed d s tx) st = (st, RExn)).
+Proof.
+  repeat split.
+  - intros d t v F. simpl. rewrite F. auto.
+  - intros d t v L. simpl. rewrite L. auto.
+  - intros d s tx x F V. assert (L : is_live s st = true) by (apply view_live_true; rewrite V; auto).
+    simpl. rewrite F, L, holds_type_spec, V by auto. simpl. rewrite Nat.eqb_refl. auto.
+  - intros d s tx x Ld V. assert (L : is_live s st = true) by (apply view_live_true; rewrite V; auto).
+    simpl. rewrite Ld, L, holds_type_spec, V by auto. simpl. rewrite Nat.eqb_refl. auto.
 Qed.
